@@ -104,20 +104,21 @@ inline AddHist gen_add_history(int size, bool many_blocks = true) {
 
 // ---------------------------------------------------------------- C09 structural validator
 // Checks every clause of the C09 statement on a file image; returns "" or the first violated clause.
+// `img` holds the file from absolute offset `base` onward (base > 0 only for tables written behind a sparse hole)
 inline std::string validate_written_file(const bytes &img, const WConfig &cfg, const KVs &content, ref::DFile *out = nullptr,
-                                         Result *r = nullptr) {
+                                         Result *r = nullptr, uint64_t base = 0) {
   using namespace ref;
-  DFile f = decode_file(img);
+  DFile f = decode_file(img, base);
   if (out) *out = f;
   if (!f.err.empty()) return "independent decoder rejects the file: " + f.err;
   char buf[512];
 #define VFAIL(...) do { snprintf(buf, sizeof buf, __VA_ARGS__); return std::string(buf); } while (0)
   if (f.version != 2) VFAIL("writer produced format version %d, expected v2", f.version);
   if (!f.padding_zero) VFAIL("trailer padding is not all zero");
-  bytes pre = cfg.prefix_bytes();
+  bytes pre = base ? bytes() : cfg.prefix_bytes();
   if (img.compare(0, pre.size(), pre) != 0) VFAIL("bytes before the table were modified");
   // contiguity
-  uint64_t pos = pre.size();
+  uint64_t pos = base + pre.size();
   for (size_t i = 0; i < f.data.size(); i++) {
     const DBlock &b = f.data[i];
     if (b.offset != pos) VFAIL("data block %zu starts at %llu, expected %llu (blocks must be contiguous from the initial offset)", i, (unsigned long long)b.offset, (unsigned long long)pos);
@@ -128,7 +129,7 @@ inline std::string validate_written_file(const bytes &img, const WConfig &cfg, c
   if (f.f[0] != pos) VFAIL("index block offset %llu != end of data blocks %llu", (unsigned long long)f.f[0], (unsigned long long)pos);
   if (!f.index.len_canonical) VFAIL("index block: length prefix is not a minimal varint");
   if (f.index.crc_field != f.index.crc_calc) VFAIL("index block: checksum field %08x != CRC32C of stored bytes %08x", f.index.crc_field, f.index.crc_calc);
-  if (pos + f.index.total() + 512 != img.size()) VFAIL("file size %zu != index end %llu + 512-byte trailer", img.size(), (unsigned long long)(pos + f.index.total()));
+  if (pos + f.index.total() + 512 != base + img.size()) VFAIL("file size %llu != index end %llu + 512-byte trailer", (unsigned long long)(base + img.size()), (unsigned long long)(pos + f.index.total()));
   // index entries
   if (f.index.entries.size() != f.data.size()) VFAIL("index has %zu entries for %zu blocks", f.index.entries.size(), f.data.size());
   for (size_t i = 0; i < f.data.size(); i++) {
